@@ -1133,6 +1133,10 @@ def event_graph(fn, role_of, ret_local=0, max_states=40000, branch_role=None, st
                                 retv = "const:%s" % (kv[1],)
                 if is_alias or is_discr:
                     aliases.add(l)
+                    if is_alias and src_local is not None and ("notflip", src_local) in aliases:
+                        aliases.add(("notflip", l))
+                    else:
+                        aliases.discard(("notflip", l))
                     srcl = src_local if is_alias and src_local is not None else (rv.place.local if is_discr else (rv.ops[0].place.local if rv.ops and rv.ops[0].place is not None else None))
                     if srcl is not None and ("flip", srcl) in aliases:
                         aliases.add(("flip", l))
@@ -1141,8 +1145,15 @@ def event_graph(fn, role_of, ret_local=0, max_states=40000, branch_role=None, st
                 elif l in aliases:
                     aliases.discard(l)
                     aliases.discard(("flip", l))
+                    aliases.discard(("notflip", l))
                 if rv.k == "un" and rv.j["op"] == "Not" and rv.ops[0].place is not None and rv.ops[0].place.is_local() and rv.ops[0].place.local in aliases:
                     aliases.add(l)
+                    # the negation of the outcome: a later test of it is labelled with the outcome itself (`let ok = !failed();
+                    # if ok` takes its true edge when the call returned false)
+                    if ("notflip", rv.ops[0].place.local) in aliases:
+                        aliases.discard(("notflip", l))
+                    else:
+                        aliases.add(("notflip", l))
                     if l == ret_local:
                         retv = "not(ev:%s)" % (src[2] if src != "ENTRY" else "?")
         t = blk.term
@@ -1284,6 +1295,8 @@ def event_graph(fn, role_of, ret_local=0, max_states=40000, branch_role=None, st
                     # `opt?` switches on ControlFlow (Continue = 0) where a match on the Option itself has Some = 1:
                     # the label is that of the Option
                     lab_ = (1 - lab) if flipped and lab in (0, 1) else lab
+                    if ("notflip", t.discr.place.local) in aliases and fn.local_ty(t.discr.place.local) == "bool":
+                        lab_ = "else" if lab == 0 else (0 if lab == "else" else lab)
                     nl = (label + "," if label else "") + str(lab_)
                 else:
                     nl = label
